@@ -57,7 +57,7 @@ InitC(toks) ==
   [ toks |-> toks, i |-> 0, cur |-> ZeroTok, prev |-> ZeroTok,
     hadError |-> FALSE, hadLexFail |-> FALSE, panic |-> FALSE,
     code |-> <<>>, positions |-> <<>>, consts |-> <<>>, refs |-> <<>>,    \* refs: seq of [name, idx]
-    locals |-> <<>>, depth |-> 0, diags |-> <<>>,
+    locals |-> <<>>, depth |-> 0, diags |-> <<>>, localMax |-> 0, depthMax |-> 0,
     ks |-> <<>>, mode |-> <<"begin">>, done |-> FALSE, ood |-> FALSE ]
 
 ErrorAt(s, t, msg) ==
@@ -139,7 +139,8 @@ StVarDecl(s) ==
   ELSE LET name == s1.prev.text
            s2 == ErrorN(s1, "variable with this name already present in this scope", DupCount(s1.locals, name, s1.depth, Len(s1.locals)))
            s3 == IF Len(s2.locals) = LocalsMax THEN Error(s2, "too many local variables")
-                 ELSE [s2 EXCEPT !.locals = Append(@, [name |-> name, depth |-> -1])]
+                 ELSE [s2 EXCEPT !.locals = Append(@, [name |-> name, depth |-> -1]),
+                                 !.localMax = IF Len(s2.locals) + 1 > @ THEN Len(s2.locals) + 1 ELSE @]
        IN IF Check(s3, "EQ") THEN Go(Push(Adv(s3), <<"kDefVar">>), <<"pp", 1>>)
           ELSE Go(EmitOp(s3, "NIL"), <<"defVar">>)
 StDefVar(s) == Ret(IF s.locals = <<>> THEN s ELSE [s EXCEPT !.locals[Len(s.locals)].depth = s.depth])
@@ -160,7 +161,7 @@ StBlock(s) ==
            r1 == IdentConst(s3, btype)
            r2 == MakeConst(r1.s, CStr(bname))
            s4 == EmitBytes(EmitOpA(r2.s, "DEFBLOCK", r1.idx), EncUv(r2.idx))
-       IN Go([s4 EXCEPT !.depth = @ + 1], <<"blockLoop">>)
+       IN Go([s4 EXCEPT !.depth = @ + 1, !.depthMax = IF s4.depth + 1 > @ THEN s4.depth + 1 ELSE @], <<"blockLoop">>)
 EndScope(s) ==
   LET d == s.depth - 1
       n == Cardinality({ i \in 1..Len(s.locals) : s.locals[i].depth > d })   \* locals of deeper scopes are a suffix
